@@ -76,6 +76,10 @@ impl VariablesState {
         changed_vars
     }
 
+    pub(crate) fn copy_default_globals_from(&mut self, other: &VariablesState) {
+        self.default_global_variables = other.default_global_variables.clone();
+    }
+
     pub fn snapshot_default_globals(&mut self) {
         for (k, v) in self.global_variables.iter() {
             self.default_global_variables.insert(k.clone(), v.clone());
